@@ -3,6 +3,7 @@ module verif/harness
 go 1.23
 
 require (
+	github.com/anishathalye/porcupine v1.3.0
 	github.com/netflix/rend v0.0.0
 	golang.org/x/tools v0.29.0
 )
